@@ -29,6 +29,9 @@ def run(ctx, anchors=None):
     if not tapmain:
         raise AnalysisBroken("tap main not found")
     tapmain = tapmain[0]
+
+    from . import common as _cm
+    _cm.require_names(tapmain, ["hasher", "internal_pubkey_u256", "root", "ctl", "ctl_ln", "is_even", "serialized_pk", "internal_pubkey", "scripts"], "R06")
     # ---- R06.1 tags
     tags = {"HasherTapSighash": "TapSighash", "HasherTapLeaf": "TapLeaf", "HasherTapBranch": "TapBranch", "HasherTapTweak": "TapTweak"}
     for name, tag in sorted(tags.items()):
@@ -67,6 +70,7 @@ def run(ctx, anchors=None):
     ctx.inst(one_byte, "R06.1", "leaf-version-one-byte", leafc.loc(), "the leaf version is streamed as a single byte")
     # branch
     brc = fb.fn("TapBranch::TapBranch")
+    _cm.require_names(brc, ["h_l", "h_r", "hasher", "m_l", "m_r"], "R06.1")
     cmp = None
     for n in brc.nodes():
         if n["k"] == "if" and n["cond"].get("k") == "call" and n["cond"].get("n") == "lexicographical_compare":
@@ -199,6 +203,7 @@ def run(ctx, anchors=None):
     if not prove:
         raise AnalysisBroken("TapBranch::Prove not found")
     prove = prove[0]
+    _cm.require_names(prove, ["child", "proof", "hash", "m_l", "m_r", "m_parent"], "R06.3")
     arms = {}
     for n in prove.nodes():
         if n["k"] == "if" and n["cond"].get("k") == "bin" and n["cond"]["op"] == "==" and astq.estr(n["cond"]["lhs"]) == "child":
